@@ -1,6 +1,6 @@
 (* Go strings as lists of bytes; the result monad with an explicit Panic;
    finite sweeps over the 256 byte values. No proofs about govalid here. *)
-From Coq Require Export List NArith Bool Arith Lia.
+From Coq Require Export List NArith ZArith Bool Arith Lia.
 From Coq Require Export Strings.Byte.
 Export ListNotations.
 
